@@ -50,7 +50,10 @@ def mat(v):
         if "np" in v:
             import numpy
 
-            return numpy.array(v["np"])
+            a = numpy.array(v["np"])
+            if v.get("ro"):
+                a.flags.writeable = False  # read-only array (a view of received bytes, a broadcast result)
+            return a
         if "arr" in v:
             from array import array
 
@@ -62,7 +65,8 @@ def mat(v):
         if "npb" in v:  # the octets as a numpy uint8 array
             import numpy
 
-            return numpy.frombuffer(bytes.fromhex(v["npb"]), dtype=numpy.uint8).copy()
+            a = numpy.frombuffer(bytes.fromhex(v["npb"]), dtype=numpy.uint8)  # read-only view of the received bytes ...
+            return a if len(a) % 2 else a.copy()  # ... or a writable copy
         if "none" in v:
             return None
     if isinstance(v, list):
@@ -365,6 +369,8 @@ def _build_registry():
     E("HRNP(default)", lambda a: L("hytera.pdu.hrnp:HRNP")(packet_number=a), "int:0:65535")
     E("RadioControlProtocol(default status_change_settings)", lambda a: _rcp_default(a), "int:0:1")
     E("LocationProtocol(default gpsdata)", lambda a: _lp_default(a), "int:0:16777215")
+    E("HSTRP(defaults).as_bytes", lambda t, sn: L("hytera.pdu.hstrp:HSTRP")(L("hytera.pdu.hstrp:HSTRPPacketType").from_bytes(bytes([t & 0x3F])), sn=sn).as_bytes(), "int:0:63", "int:0:65535")
+    E("HRNP(defaults).as_bytes", lambda op: L("hytera.pdu.hrnp:HRNP")(opcode=list(L("hytera.pdu.hrnp:HRNPOpcodes"))[op % len(list(L("hytera.pdu.hrnp:HRNPOpcodes")))]).as_bytes(), "int:0:7")
     E("RadioIP.from_bytes", lambda d: L("hytera.pdu.radio_ip:RadioIP").from_bytes(d), "bytes:4")
     # Motorola
     E("MBXML.from_bytes", lambda d: L("motorola.mbxml:MBXML").from_bytes(d), "vecm")
@@ -607,6 +613,12 @@ class ArgGen:
 
     def flip_hex(self, h, k):
         b = bytearray.fromhex(h)
+        if b and self.r.random() < 0.04:
+            # a datagram that arrives a few octets short, or with a few octets appended (lengths next to every length in the vectors)
+            n = self.r.choice([1, 1, 2, 3])
+            if self.r.random() < 0.6:
+                return bytes(b[:-n]).hex() if len(b) > n else h
+            return (bytes(b) + bytes(self.r.choice([0, 0, 0xFF, self.r.getrandbits(8)]) for _ in range(n))).hex()
         if k and b and self.r.random() < 0.15:
             st, ln = self.burst_error(len(b) * 8)
             for i in range(st, st + ln):
@@ -630,8 +642,11 @@ class ArgGen:
         out = [self.gen(sp) for sp in specs]
         r = self.r
         for i, v in enumerate(out):
-            if isinstance(v, dict) and set(v) == {"b"} and r.random() < 0.06:
+            if isinstance(v, dict) and set(v) == {"b"} and r.random() < 0.12:
                 h = v["b"]
+                if r.random() < 0.5:
+                    out[i] = {"bya": h}  # a bytearray receive buffer is the commonest mutable way octets arrive
+                    continue
                 # (not a bitarray: entry points that slice their octets would read the undefined pad bits of sub-octet bitarray slices)
                 out[i] = r.choice([{"b": h, "mv": 1}, {"bya": h}, {"npb": h}, {"arr": list(bytes.fromhex(h))}])
         return out
@@ -676,7 +691,7 @@ class ArgGen:
         if kind in ("cw", "cwnp"):
             s = self.codeword(rest)
             if kind == "cwnp":
-                return {"np": [int(c) for c in s]}
+                return {"np": [int(c) for c in s], "ro": 1} if r.random() < 0.2 else {"np": [int(c) for c in s]}
             if rest == "RS":
                 return {"b": s}
             return {"ba": s}
@@ -702,7 +717,10 @@ class ArgGen:
             if r.random() < 0.4 and len(opts) >= 2:
                 opts.insert(r.randrange(len(opts) + 1), r.choice(opts))  # an exactly repeated option
             ob = b"".join(bytes([c | (0x80 if i < len(opts) - 1 else 0), len(d)]) + d for i, (c, d) in enumerate(opts))
-            typ = r.choice([0x20, 0x20, 0x21, 0x24, 0x28, 0x30])
+            typ = r.choice([0x20, 0x20, 0x21, 0x24, 0x28, 0x30, 0x25, 0x29])
+            if r.random() < 0.3:  # option-less control datagrams: connect, close, heartbeat, their acknowledgements, reject
+                opts, ob = [], b""
+                typ = r.choice([0x04, 0x05, 0x08, 0x09, 0x02, 0x01, 0x00, 0x10, 0x03])
             payload = r.choice([b"", c17.rrs_hdap(r.choice([1, 2, 3]), r.getrandbits(24), r.random() < 0.3), bytes.fromhex(r.choice(c17.HDAP_SAMPLES))])
             return {"b": self.flip_hex(c17.hstrp(typ, r.choice([0, 1, 0xFFFF, r.getrandbits(16)]), ob, payload, r.choice([0, 0, 1])).hex(), r.choice([0, 0, 0, 1]))}
         if kind == "vecp":
@@ -1088,9 +1106,34 @@ class C19(Check):
             if f.random() < rb_rate:
                 op["rb"] = 1
             ops.append(op)
+            sib = self._checksum_sibling(args, w) if w.random() < 0.12 else None
+            if sib is not None:
+                # the same call right afterwards on a message that differs from the previous one only by a checksum-preserving change (two
+                # 16-bit words of the body exchanged: additive checksums, ones-complement sums and length fields all stay the same)
+                ops.append({"client": op["client"], "entry": name, "args": sib})
         if scale:
             ops += [dict(o) for o in ops[:10]]
         return {"knobs": {"clients": nclients}, "ops": ops}
+
+    @staticmethod
+    def _checksum_sibling(args, w):
+        if not args or not isinstance(args[0], dict) or not ({"b", "bya"} & set(args[0])) or "mv" in args[0]:
+            return None
+        key = "b" if "b" in args[0] else "bya"
+        b = bytearray.fromhex(args[0][key])
+        if len(b) < 26:
+            return None
+        # two distinct aligned 16-bit words inside the body (past the 17 octets of HRNP + HDAP headers, before the trailing checksum / end octets)
+        lo, hi = 18, len(b) - 4
+        cand = [i for i in range(lo, hi, 2)]
+        for _ in range(8):
+            i, j = w.sample(cand, 2) if len(cand) >= 2 else (None, None)
+            if i is None:
+                return None
+            if b[i:i + 2] != b[j:j + 2]:
+                b[i:i + 2], b[j:j + 2] = b[j:j + 2], b[i:i + 2]
+                return [dict(args[0], **{key: bytes(b).hex()})] + list(args[1:])
+        return None
 
     def sample(self, case):
         return {"knobs": case["knobs"], "n_ops": len(case["ops"]), "ops": [{"client": o["client"], "entry": o["entry"], "args": o["args"]} for o in case["ops"][:5]]}
@@ -1123,7 +1166,9 @@ class C19(Check):
                     alone[key] = ["timeout"]
                 except pristine.ChildCrash:
                     alone[key] = ["crash"]
-                if srv is not None and alone[key] not in (["timeout"], ["crash"]) and (case.get("arm") == "min-imports" or core.derive("fresh", key) % 5 < 3):
+                if srv is not None and not (case.get("env") or {}).get("numpy") and alone[key] not in (["timeout"], ["crash"]) and (case.get("arm") == "min-imports" or core.derive("fresh", key) % 5 < 3):
+                    # (not in runs whose process-wide numpy settings were changed: the server runs with numpy's defaults, and what a call does
+                    # with an out-of-range numpy scalar under seterr(all="raise") is the application's choice, not a dependence on history)
                     # (every call of the min-imports group, a seeded 60 % sample otherwise)
                     # the same call, alone, in a genuinely fresh interpreter started with another PYTHONHASHSEED
                     other = srv.call(op["entry"], op["args"])
@@ -1161,7 +1206,7 @@ class C19(Check):
                 from bitarray import bitarray as _ba
 
                 for ai, a in enumerate(args):
-                    if isinstance(a, (_ba, bytearray, _np.ndarray, _array)):
+                    if isinstance(a, (_ba, bytearray, _np.ndarray, _array)) and not (isinstance(a, _np.ndarray) and not a.flags.writeable):
                         en = a.endian if isinstance(a, _ba) else None
                         bk = (name, ai, type(a).__name__, len(a), str(getattr(a, "dtype", "")), en() if callable(en) else en)
                         if bk in bufs:
